@@ -257,6 +257,33 @@ Outcome execute(const Plan& plan) {
             violate("C20:serial-equivalence", "task " + std::to_string(i) +
                                                   " observed something else than when its history runs alone; schedule:" + schedText);
         }
+        if (getenv("SIM_CONC_DUMP")) {
+          for (size_t i = 0; i < n; i++) {
+            std::string path = std::string(getenv("SIM_CONC_DUMP")) + "/seq-" + plan.head.str("run") + "-" + std::to_string(i) + ".txt";
+            FILE* f = fopen(path.c_str(), "w");
+            for (auto g : serial.tasks[i].guardSeq)
+              fprintf(f, "%u %s\n", g, sched::guardSymbol(g).c_str());
+            fclose(f);
+          }
+        }
+        if (getenv("SIM_CONC_DEBUG")) {
+          std::string d = "CONCDBG run=" + plan.head.str("run") + " sw=" + std::to_string(conc.switches) + " fired=" +
+                          std::to_string(conc.preemptionsFired) + " sched=" + std::to_string(schedule.size());
+          for (size_t i = 0; i < n; i++)
+            d += " e" + std::to_string(i) + "=" + std::to_string(serial.tasks[i].events) + "/" + std::to_string(conc.tasks[i].events) +
+                 " o=" + std::to_string(obsConc[i] % 100000);
+          uint64_t sh = 0;
+          for (auto& p : schedule)
+            sh = mix64(sh ^ (uint64_t(p.task) << 48) ^ (p.at << 8) ^ uint64_t(p.to + 1));
+          d += " schedhash=" + std::to_string(sh % 1000000);
+          for (size_t i = 0; i < n; i++) {
+            uint64_t gh = 0;
+            for (auto g : serial.tasks[i].guardSeq)
+              gh = mix64(gh ^ g);
+            d += " g" + std::to_string(i) + "=" + std::to_string(gh % 1000000) + "/" + std::to_string(serial.tasks[i].guardSeq.size());
+          }
+          printf("%s\n", d.c_str());
+        }
         std::lock_guard<std::mutex> lk(g_merge);
         g_taskStats.c["conc.switches"] += conc.switches;
         g_taskStats.c["fault.preemptions_fired"] += conc.preemptionsFired;
